@@ -706,7 +706,8 @@ Section T.
     AInv t' /\ Chain t' (tget (buckets t') b) (filter alive l) /\
     (forall j, occupied t' j <-> occupied t j /\ ~ (In j l /\ alive j = false)) /\
     (forall j, val t' j = val t j) /\ (forall j, ~ In j l -> nxt t' j = nxt t j) /\
-    (forall b', b' <> b -> tget (buckets t') b' = tget (buckets t) b') /\ nb t' = nb t /\ cap t' = cap t.
+    (forall b', b' <> b -> tget (buckets t') b' = tget (buckets t) b') /\ nb t' = nb t /\ cap t' = cap t /\
+    last_index t' = last_index t.
   Proof.
     intros HA Hc Hnd Hocc H. unfold sweep_bucket in H.
     destruct (N.eqb_spec (tget (buckets t) b) 0) as [Ez|Enz].
@@ -738,6 +739,7 @@ Section T.
       + intros b' Hb'. rewrite B3. unfold t2; cbn [set_bucket buckets]. rewrite tget_set_other by assumption. now rewrite B1.
       + rewrite NB3. unfold t2; cbn. exact NB1.
       + rewrite C3. unfold t2; cbn. exact C1.
+      + rewrite L3. unfold t2; cbn. exact L1.
   Qed.
 
   (* ---------- all buckets: the table part of collect_garbage ---------- *)
@@ -752,7 +754,8 @@ Section T.
     AInv t /\ nb t = nb t0 /\ cap t = cap t0 /\ (forall j, val t j = val t0 j) /\
     (forall j, occupied t j <-> occupied t0 j /\ ~ (chained t0 j /\ In (bidx t0 (val t0 j)) B /\ alive j = false)) /\
     (forall b l0, b < nb t0 -> Chain t0 (tget (buckets t0) b) l0 ->
-        Chain t (tget (buckets t) b) (if in_dec N.eq_dec b B then filter alive l0 else l0)).
+        Chain t (tget (buckets t) b) (if in_dec N.eq_dec b B then filter alive l0 else l0)) /\
+    last_index t = last_index t0.
 
   Lemma G_init t0 : AInv t0 -> G t0 t0 [].
   Proof. intro HA. unfold G. splits; auto. intro j. cbn. tauto. Qed.
@@ -760,13 +763,13 @@ Section T.
   Lemma G_step t0 t B b fuel t' : CInv t0 -> G t0 t B -> b < nb t0 -> ~ In b B ->
     sweep_bucket fuel t b = Ok t' -> G t0 t' (b :: B).
   Proof.
-    intros HC (HA & Hnb & Hcap & Hval & Hocc & Hch) Hb HnB H.
+    intros HC (HA & Hnb & Hcap & Hval & Hocc & Hch & Hli) Hb HnB H.
     destruct (c_chain _ HC b Hb) as (l0 & Hl0 & Hnd0 & Hm0).
     pose proof (Hch b l0 Hb Hl0) as Hcb. destruct (in_dec N.eq_dec b B) as [?|_]; [contradiction|].
     assert (Hoccl : forall j, In j l0 -> occupied t j /\ 1 <= j).
     { intros j Hj. destruct (Hm0 j Hj) as [(Ho & H0 & Hp) Hbj]. split; [|lia].
       apply Hocc. split; [exact Ho|]. intros (_ & HinB & _). rewrite Hbj in HinB. contradiction. }
-    destruct (sweep_bucket_ok _ _ _ _ _ HA Hcb Hnd0 Hoccl H) as (HA' & Hcb' & Ho' & Hv' & Hn' & Hb' & Hnb' & Hcap').
+    destruct (sweep_bucket_ok _ _ _ _ _ HA Hcb Hnd0 Hoccl H) as (HA' & Hcb' & Ho' & Hv' & Hn' & Hb' & Hnb' & Hcap' & Hli').
     unfold G. splits; auto; try congruence.
     - intro j. rewrite Ho', Hocc. cbn [In].
       split.
@@ -807,7 +810,7 @@ Section T.
     (forall j, occupied t' j <-> occupied t0 j /\ (chained t0 j -> alive j = true)) /\
     nb t' = nb t0 /\ cap t' = cap t0.
   Proof.
-    intros HA0 HC (HA & Hnb & Hcap & Hval & Hocc & Hch) Hall.
+    intros HA0 HC (HA & Hnb & Hcap & Hval & Hocc & Hch & Hli) Hall.
     assert (Hbl : forall j, bidx t0 (val t0 j) < nb t0) by (intro j; unfold bidx; apply N.mod_lt; destruct HA0; lia).
     assert (Hocc' : forall j, occupied t' j <-> occupied t0 j /\ (chained t0 j -> alive j = true)).
     { intro j. rewrite Hocc. split; intros (Ho & Hn); (split; [exact Ho|]).
@@ -847,6 +850,27 @@ Section T.
       + intros k Hk. apply Hall. lia.
   Qed.
 
+  (* put reports Full only when the allocation itself does *)
+  Lemma add_full t v : add t v = Full -> alloc t = Full.
+  Proof. unfold add. destruct (alloc t) as [[t1 i]| |]; [discriminate|reflexivity|discriminate]. Qed.
+  Lemma walk_full fuel t v i : walk fuel t v i = Full -> alloc t = Full.
+  Proof.
+    revert i. induction fuel as [|fuel IH]; intros i H; cbn [walk] in H; [discriminate|].
+    destruct (veqb v (value (tget (data t) i))); [discriminate|].
+    destruct (next (tget (data t) i) =? 0); [|eauto].
+    destruct (add t v) as [[t1 j]| |] eqn:E; [discriminate|exact (add_full _ _ E)|discriminate].
+  Qed.
+  Lemma put_full fuel t v : put fuel t v = Full -> alloc t = Full.
+  Proof.
+    unfold put. destruct (tget (buckets t) (bidx t v) =? 0); [|apply walk_full].
+    destruct (add t v) as [[t1 j]| |] eqn:E; [discriminate|intros _; exact (add_full _ _ E)|discriminate].
+  Qed.
+  (* the table is full: the high-water mark is at the last cell and every cell 1 .. cap-1 is occupied *)
+  Definition storage_full (t : table) : Prop :=
+    last_index t + 1 = cap t /\ real_size t = last_index t /\ forall k, 1 <= k < cap t -> occupied t k.
+  Lemma put_full_storage fuel t v : AInv t -> put fuel t v = Full -> storage_full t.
+  Proof. intros HA H. exact (alloc_full t HA (put_full _ _ _ H)). Qed.
+
   (* ---------- C06: the high-water mark is the peak number of simultaneously stored cells ---------- *)
   Definition Peak (t : table) (p : N) : Prop := last_index t = p /\ real_size t <= p.
   Lemma cnt_lt d n i : 1 <= i <= N.of_nat n -> occ (tget d i) = false -> cnt d n < N.of_nat n.
@@ -877,6 +901,20 @@ Section T.
   Lemma drop_peak t i p : AInv t -> occupied t i -> 1 <= i -> Peak t p -> Peak (drop t i) p.
   Proof.
     intros HA Ho Hi [Hl Hr]. destruct (drop_AInv t i HA Ho Hi) as [_ Hrs]. unfold Peak. split; [exact Hl|lia].
+  Qed.
+
+  Lemma cnt_mono (d d' : tmap entry) n : (forall j, occ (tget d' j) = true -> occ (tget d j) = true) -> cnt d' n <= cnt d n.
+  Proof.
+    intro H. induction n as [|n IH]; cbn [cnt]; [lia|].
+    pose proof (H (N.of_nat (S n))) as Hj. destruct (occ (tget d' (N.of_nat (S n)))); [rewrite Hj by reflexivity|destruct (occ (tget d (N.of_nat (S n))))]; lia.
+  Qed.
+  (* a (partial or complete) sweep never moves the high-water mark and never increases the live count *)
+  Lemma G_peak t0 t B p : G t0 t B -> AInv t0 -> Peak t0 p -> Peak t p /\ real_size t <= real_size t0.
+  Proof.
+    intros (HA' & _ & _ & _ & Hocc & _ & Hli) HA [Hl Hr].
+    assert (Hle : real_size t <= real_size t0).
+    { rewrite (a_count t HA'), (a_count t0 HA), Hli. apply cnt_mono. intros j Hj. apply (Hocc j). exact Hj. }
+    split; [|exact Hle]. unfold Peak. split; [congruence|lia].
   Qed.
 
   (* ---------- the chain walk never runs out of fuel when fuel >= capacity ---------- *)
@@ -985,6 +1023,63 @@ Section THist.
     assert (HG : G V hash pin alive t t' (rev (bucket_range t) ++ [])).
     { eapply sweep_all_G; eauto using G_init. - now rewrite app_nil_r. - intros b Hb; now apply Hbl. }
     apply (G_final V hash pin alive t t' _ HA HC HG). intros b Hb. rewrite app_nil_r, <- in_rev. now apply Hbl.
+  Qed.
+
+  (* ---------- C06 over whole histories: the high-water mark is the peak live count ---------- *)
+  (* a collection never moves the high-water mark and never increases the live count *)
+  Lemma sweep_peak fuel t alive t' p : AInv t -> CInv V hash pin t -> sweep_all V alive fuel t (bucket_range t) = Ok t' ->
+    Peak V t p -> Peak V t' p /\ real_size t' <= real_size t.
+  Proof.
+    intros HA HC E [Hl Hr]. destruct (bucket_range_ok t) as [Hnd Hbl].
+    assert (HG : G V hash pin alive t t' (rev (bucket_range t) ++ [])).
+    { eapply sweep_all_G; eauto using G_init. - now rewrite app_nil_r. - intros b Hb; now apply Hbl. }
+    exact (G_peak V hash pin alive t t' _ p HG HA (conj Hl Hr)).
+  Qed.
+  (* an insertion raises the mark only to a new peak of the live count *)
+  Lemma put_peak fuel t v t' i p : AInv t -> CInv V hash pin t -> put V veqb hash fuel t v = Ok (t', i) ->
+    Peak V t p -> Peak V t' (N.max p (real_size t')).
+  Proof.
+    intros HA HC E [Hl Hr].
+    destruct (put_ok V veqb veqb_spec hash pin _ _ _ _ _ HA HC E) as (HA' & _ & _ & _ & _ & _ & [[-> _]|(Hfree & _ & _ & Hrs & Hli & Hlow)]).
+    - unfold Peak. split; lia.
+    - unfold Peak. rewrite Hli, Hrs. destruct (N.le_gt_cases i (last_index t)) as [Hle|Hgt].
+      + (* a freed cell is reused: the count stays below the mark *)
+        assert (Hi1 : 1 <= i).
+        { destruct (N.eq_dec i 0) as [->|]; [|lia]. exfalso. apply Hfree. apply (a_zero V t HA). }
+        assert (Hlt : real_size t < last_index t).
+        { rewrite (a_count V t HA). pose proof (cnt_lt V (data t) (N.to_nat (last_index t)) i) as Hc.
+          rewrite N2Nat.id in Hc. apply Hc; [lia|]. unfold occupied in Hfree. now destruct (occ (tget (data t) i)). }
+        lia.
+      + (* the table grows: every cell up to the mark was occupied, so the count reaches a new peak *)
+        assert (Hi : i = last_index t + 1).
+        { destruct (N.le_gt_cases i (last_index t + 1)) as [|Hbig]; [lia|]. exfalso.
+          apply (a_above V t HA (last_index t + 1)); [lia|]. apply Hlow. pose proof (a_minfree V t HA). lia. }
+        assert (Hfull : real_size t = last_index t).
+        { rewrite (a_count V t HA). rewrite cnt_full; [lia|]. intros j Hj. apply Hlow. lia. }
+        lia.
+  Qed.
+
+  (* the run with a ghost register holding the largest live count seen so far *)
+  Fixpoint trun_peak (fuel : nat) (t : table V) (p : N) (h : list top_) : res (table V * N) :=
+    match h with
+    | [] => Ok (t, p)
+    | o :: h' => match tstep fuel t o with Ok t' => trun_peak fuel t' (N.max p (real_size t')) h' | Full => Full | Fuel => Fuel end
+    end.
+  (* for every put / collect history: the high-water mark of used cells equals the peak number of simultaneously
+     stored values (p' is the maximum of the live count over all prefixes of the history and the starting mark) *)
+  Theorem table_history_peak fuel : forall h t p t' p', AInv t -> CInv V hash pin t -> Peak V t p ->
+    trun_peak fuel t p h = Ok (t', p') -> last_index t' = p' /\ real_size t' <= p' /\ AInv t' /\ CInv V hash pin t'.
+  Proof.
+    induction h as [|o h IH]; intros t p t' p' HA HC HP H; cbn [trun_peak] in H.
+    - injection H as <- <-. destruct HP. auto.
+    - destruct (tstep fuel t o) as [t1| |] eqn:E; try discriminate.
+      assert (HI1 : AInv t1 /\ CInv V hash pin t1).
+      { apply (table_history fuel [o] t t1 HA HC). cbn [trun]. now rewrite E. }
+      destruct HI1 as [HA1 HC1]. apply (IH t1 (N.max p (real_size t1)) t' p' HA1 HC1); [|exact H].
+      destruct o as [v|alive]; cbn [tstep] in E.
+      + destruct (put V veqb hash fuel t v) as [[t2 i]| |] eqn:Ep; try discriminate. injection E as <-.
+        exact (put_peak fuel t v t2 i p HA HC Ep HP).
+      + destruct (sweep_peak fuel t alive t1 p HA HC E HP) as [[Hl Hr] Hle]. unfold Peak. split; lia.
   Qed.
 End THist.
 
